@@ -5,6 +5,7 @@
 //                                                            vs explicit leave-one-out re-kriging (sample masked or removed)
 //   pair "block1"      : EKrigOpt::BLOCK with ndiscs = {1..1} vs EKrigOpt::POINT at the cell centres
 //   pair "colcok"      : collocated cokriging (rank_colcok)  vs cokriging with the collocated datum appended to the data
+//   pair "reuse"       : all targets in one call (neighbourhood / LHS reuse between consecutive targets) vs one call per target
 // Every library call gets freshly built Db / Model / Neigh objects (no shared mutable state between the two sides).
 //
 // Tolerance (DESIGN 5.3): |a-b| <= 1e3 * eps * kappa * scale, kappa = 1-norm condition number of the kriging matrix
@@ -216,7 +217,7 @@ static void describe(Ctx& c, const KCfg& k, const std::string& pair)
 // compare two kriging outputs target by target
 static void compareOut(Ctx& c, const std::string& pfx, const std::string& key, const KOut& a, const KOut& b,
                        const DbSpec& tgt, int nvar, double tolEst, double tolVar, const std::string& what,
-                       bool cmpSd = true, bool flatKey = false)
+                       bool cmpSd = true, bool flatKey = false, double zscale = 1., double vscale = 1.)
 {
   // flatKey: the input class has one known cause; every symptom is reported under the class key itself
   auto K = [&](const char* suffix) { return flatKey ? key : key + suffix; };
@@ -243,14 +244,14 @@ static void compareOut(Ctx& c, const std::string& pfx, const std::string& key, c
         c.truth(pfx + "-defined", K(":undefined-mismatch"), undef(ea) && undef(eb), w + fmt(" est %g / %g", ea, eb));
         continue;
       }
-      c.close(pfx + "-estim", K(":estim"), ea, eb, tolEst, w);
+      closeRel(c, pfx + "-estim", K(":estim"), ea, eb, tolEst, zscale, w);
       if (cmpSd)
       {
         double sa = a.sd[v][t], sb = b.sd[v][t];
-        c.close(pfx + "-var", K(":stdev"), sa * sa, sb * sb, tolVar, w + fmt(" sd %.10g / %.10g", sa, sb));
+        closeRel(c, pfx + "-var", K(":stdev"), sa * sa, sb * sb, tolVar, vscale, w + fmt(" sd %.10g / %.10g", sa, sb));
       }
       if (a.vz.size() == (size_t)nvar && b.vz.size() == (size_t)nvar)
-        c.close(pfx + "-varz", K(":varz"), a.vz[v][t], b.vz[v][t], tolVar, w);
+        closeRel(c, pfx + "-varz", K(":varz"), a.vz[v][t], b.vz[v][t], tolVar, vscale, w);
     }
 }
 
@@ -265,7 +266,8 @@ static void pairUniqueMoving(Rng& r, Ctx& c)
   // moving neighbourhood variants that must all hold every sample: huge isotropic radius / undefined radius /
   // anisotropic + rotated ellipse that still contains the field / ball-tree candidates with nmaxi >= n
   int mv         = (int)(r.next() % 6);
-  if (AVOID_NEIGHMOVING_NDIM2_1D && k.ndim == 1 && (mv == 0 || mv == 1 || mv == 5)) mv = 4;
+  // 1-D without coefficients is a known crash (see AVOID_NEIGHMOVING_NDIM2_1D): visited, but only in 1 such case out of 5
+  if (k.ndim == 1 && (mv == 0 || mv == 1 || mv == 5) && (AVOID_NEIGHMOVING_NDIM2_1D || !r.coin(0.2))) mv = 4;
   int n          = k.data.pts.n;
   int nmaxi      = n + (int)(r.next() % 5);
   bool ball      = (mv == 3 || mv == 5);
@@ -313,11 +315,110 @@ static void pairUniqueMoving(Rng& r, Ctx& c)
   if (oU.rc != 0) { c.skip("kriging-refused"); return; }
   double tolE = 1e3 * EPS * cd.kappa * k.zspread;
   double tolV = 1e3 * EPS * cd.kappa * k.ms.maxSill();
-  compareOut(c, pfx, key, oU, oM, tg, k.nvar, tolE, tolV, what, true, flat);
+  compareOut(c, pfx, key, oU, oM, tg, k.nvar, tolE, tolV, what, true, flat, k.zspread, k.ms.maxSill());
   if (ball && !flat) c.probe("um-ball-clean");
   if (k.hetero) c.probe("um-hetero");
   if (k.selMode) c.probe("um-selection");
   if (k.ms.driftOrder >= 1) c.probe("um-drift");
+}
+
+// kappa of the kriging system restricted to the nmaxi nearest admissible samples of target t (isotropic distance)
+static double subKappa(const KCfg& k, const Pts& tp, int t, int nmaxi)
+{
+  std::vector<std::pair<double, int>> ds;
+  for (int i = 0; i < k.data.pts.n; i++)
+  {
+    bool anyDef = false;
+    for (int v = 0; v < k.nvar; v++) anyDef = anyDef || k.data.defined(i, v);
+    if (!k.data.active(i) || !anyDef) continue;
+    ds.push_back({distPP(k.data.pts, i, tp, t), i});
+  }
+  std::sort(ds.begin(), ds.end());
+  DbSpec sub = k.data;
+  sub.sel.assign(k.data.pts.n, 0.0);
+  for (int q = 0; q < (int)ds.size() && q < nmaxi; q++) sub.sel[ds[q].second] = 1.0;
+  return condOf(k.ms, sub).kappa;
+}
+
+// -----------------------------------------------------------------------------------------------------------------
+// neighbourhood reuse: all targets in one kriging() call (ANeigh remembers the previous neighbourhood and
+// KrigingSystem::estimate skips the LHS when ANeigh::isUnchanged()) vs one call per target (nothing to reuse)
+// -----------------------------------------------------------------------------------------------------------------
+static void pairReuse(Rng& r, Ctx& c)
+{
+  KCfg k = genCfg(r, c, 2, 6, 28, true, true);
+  // targets in small clumps so that consecutive targets often (not always) share their neighbourhood
+  int nclump = 2 + (int)(r.next() % 3), per = 2 + (int)(r.next() % 3);
+  DbSpec ctr = genTargets(r, k, nclump, false, false);
+  DbSpec tg;
+  tg.pts.ndim = k.ndim;
+  tg.pts.x.assign(k.ndim, {});
+  tg.nvar = 0;
+  for (int q = 0; q < nclump; q++)
+    for (int j = 0; j < per; j++)
+    {
+      for (int d = 0; d < k.ndim; d++) tg.pts.x[d].push_back(ctr.pts.x[d][q] + (j == 0 ? 0.0 : k.L * r.uni(-0.02, 0.02)));
+      tg.pts.n++;
+    }
+  if (r.coin(0.3)) genSel(r, tg, 1);
+  int m = tg.pts.n;
+  int nmaxi = 3 + (int)(r.next() % 6);
+  bool unique = r.coin(0.2);
+  c.setSig(fmt("reuse:ndim=%d:nvar=%d:%s:%s:het=%d:sel=%d:verr=%d:%s", k.ndim, k.nvar, k.ms.sig().c_str(), k.driftName.c_str(), k.hetero,
+               k.selMode, (int)k.verr, unique ? "unique" : "moving"));
+  describe(c, k, "reuse");
+  c.putn("nmaxi", nmaxi);
+  if (!enoughData(k)) { c.skip("too-few-data"); return; }
+  Cond cd = condOf(k.ms, k.data);
+  if (!(cd.kappa < 1e9)) { c.skip("illcond"); return; }
+  double kap = std::max(cd.kappa, 1e3);
+  if (!unique)
+    for (int t = 0; t < m; t++) kap = std::max(kap, subKappa(k, tg.pts, t, nmaxi));
+  if (!(kap < 1e9)) { c.skip("illcond"); return; }
+  auto mk = [&]() -> std::unique_ptr<ANeigh> {
+    if (unique) return std::unique_ptr<ANeigh>(NeighUnique::create());
+    return std::unique_ptr<ANeigh>(NeighMoving::create(false, nmaxi, 1e6 * k.L, 1, 1, ITEST, VectorDouble(k.ndim, 1.)));
+  };
+  auto tAll = buildDb(tg);
+  auto nAll = mk();
+  KOut oAll = runKriging(k.data, tAll.get(), k.ms, nAll.get());
+  std::string what = fmt("n=%d kappa=%.3g drift=%s nmaxi=%d m=%d %s", k.data.pts.n, kap, k.driftName.c_str(), nmaxi, m, unique ? "unique" : "moving");
+  std::string key = "C04:neigh-reuse";
+  if (!c.truth("ru-rc", key + ":rc", oAll.rc == 0 && oAll.est.size() == (size_t)k.nvar && oAll.sd.size() == (size_t)k.nvar, what + fmt(" rc=%d", oAll.rc)))
+    return;
+  double tolE = 1e3 * EPS * kap * k.zspread, tolV = 1e3 * EPS * kap * k.ms.maxSill();
+  for (int t = 0; t < m; t++)
+  {
+    if (!tg.active(t))
+    {
+      c.truth("ru-masked-target", key + ":masked-target", undef(oAll.est[0][t]), what);
+      continue;
+    }
+    DbSpec one;
+    one.pts.ndim = k.ndim;
+    one.pts.n    = 1;
+    one.pts.x.assign(k.ndim, std::vector<double>(1));
+    for (int d = 0; d < k.ndim; d++) one.pts.x[d][0] = tg.pts.x[d][t];
+    one.nvar = 0;
+    auto t1  = buildDb(one);
+    auto n1  = mk();
+    KOut o1  = runKriging(k.data, t1.get(), k.ms, n1.get());
+    if (o1.rc != 0 || o1.est.size() != (size_t)k.nvar) { c.skip("ru-single-refused"); continue; }
+    for (int v = 0; v < k.nvar; v++)
+    {
+      std::string w = what + fmt(" target=%d var=%d", t, v);
+      double ea = oAll.est[v][t], eb = o1.est[v][0];
+      if (undef(ea) || undef(eb))
+      {
+        c.truth("ru-defined", key + ":undefined-mismatch", undef(ea) && undef(eb), w + fmt(" est %g / %g", ea, eb));
+        continue;
+      }
+      closeRel(c, "ru-estim", key + ":estim", ea, eb, tolE, k.zspread, w);
+      closeRel(c, "ru-var", key + ":stdev", oAll.sd[v][t] * oAll.sd[v][t], o1.sd[v][0] * o1.sd[v][0], tolV, k.ms.maxSill(), w);
+      if (oAll.vz.size() == (size_t)k.nvar && o1.vz.size() == (size_t)k.nvar)
+        closeRel(c, "ru-varz", key + ":varz", oAll.vz[v][t], o1.vz[v][0], tolV, k.ms.maxSill(), w);
+    }
+  }
 }
 
 // -----------------------------------------------------------------------------------------------------------------
@@ -386,13 +487,19 @@ static void pairBlock1(Rng& r, Ctx& c)
   std::string key = "C04:block1";
   if (!c.truth("b1-rc", key + ":rc", oB.rc == oP.rc, what + fmt(" rc %d / %d", oB.rc, oP.rc))) return;
   if (oB.rc != 0) { c.skip("kriging-refused"); return; }
-  // in a moving neighbourhood the conditioning of the sub-systems is not that of the complete system: use the
-  // complete-system kappa with a floor
-  double kap  = std::max(cd.kappa, 1e3);
+  // in a moving neighbourhood the conditioning of the sub-systems is not that of the complete system (a few nearly
+  // aligned samples under a linear drift are far worse): take the worst kappa over the targets' own sub-systems,
+  // each rebuilt here from the nmaxi nearest admissible samples (isotropic distance, radius >> field)
+  double kap = std::max(cd.kappa, 1e3);
+  if (moving)
+  {
+    for (int t = 0; t < tp.pts.n; t++) kap = std::max(kap, subKappa(k, tp.pts, t, nmaxi));
+    if (!(kap < 1e9)) { c.skip("illcond"); return; }
+  }
   double tolE = 1e3 * EPS * kap * k.zspread;
   double tolV = 1e3 * EPS * kap * k.ms.maxSill();
   // estimate and var(Z*) depend on the weights only -> must agree.
-  compareOut(c, "b1", key, oB, oP, tp, k.nvar, tolE, tolV, what, /*cmpSd=*/false);
+  compareOut(c, "b1", key, oB, oP, tp, k.nvar, tolE, tolV, what, /*cmpSd=*/false, false, k.zspread, k.ms.maxSill());
   // Estimation variance: sigma^2 = Cvv - lambda^T rhs. doc/references/Cvv.md: Cvv is approximated by the average of
   // C(x_i, x_j) over "some points inside the block v" (the library takes a second, randomised, set of
   // discretisation points), so with one point Cvv = C(delta) for some offset delta inside the cell, not C(0).
@@ -413,11 +520,13 @@ static void pairBlock1(Rng& r, Ctx& c)
           ref = shift;
           double c0 = 0;
           for (auto& s : k.ms.st) c0 += s.sills[v * k.nvar + v];
-          c.check("b1-var-shift-range", key + ":stdev-shift-range", shift <= tolV && shift >= -2 * c0 - tolV, std::max(shift, -2 * c0 - shift),
-                  tolV, what + fmt(" var=%d shift=%.10g C0=%.10g", v, shift, c0));
+          double tolS = tolV * (1 + std::max(sb * sb, sp * sp) / k.ms.maxSill());
+          c.check("b1-var-shift-range", key + ":stdev-shift-range", shift <= tolS && shift >= -2 * c0 - tolS, std::max(shift, -2 * c0 - shift),
+                  tolS, what + fmt(" var=%d shift=%.10g C0=%.10g", v, shift, c0));
         }
         else
-          c.close("b1-var-shift", key + ":stdev-shift-not-constant", shift, ref, tolV, what + fmt(" var=%d target=%d", v, t));
+          // the shift is a difference of two variances: its round-off is relative to THEIR magnitude
+          c.close("b1-var-shift", key + ":stdev-shift-not-constant", shift, ref, tolV * (1 + std::max(sb * sb, sp * sp) / k.ms.maxSill()), what + fmt(" var=%d target=%d", v, t));
       }
     }
   if (rot) c.probe("b1-rotated-grid");
@@ -498,15 +607,15 @@ static void pairXvalid(Rng& r, Ctx& c)
     double zs = o.est[0][0], s = o.sd[0][0], z = k.data.z[0][i];
     // documented outputs of xvalid(): flag_xvalid_est 1: Z*-Z, -1: Z*; flag_xvalid_std 1: (Z*-Z)/S, -1: S
     double wantE = estOpt > 0 ? zs - z : zs;
-    c.close("xv-estim", key + ":estim", ox.est[0][i], wantE, tolE, w);
+    closeRel(c, "xv-estim", key + ":estim", ox.est[0][i], wantE, tolE, k.zspread, w);
     if (stdOpt < 0)
-      c.close("xv-var", key + ":stdev", ox.sd[0][i] * ox.sd[0][i], s * s, tolV, w + fmt(" sd %.10g / %.10g", ox.sd[0][i], s));
+      closeRel(c, "xv-var", key + ":stdev", ox.sd[0][i] * ox.sd[0][i], s * s, tolV, sill, w + fmt(" sd %.10g / %.10g", ox.sd[0][i], s));
     else
     {
       // standardised error: (Z*-Z)/S ; propagate both tolerances; skip when S^2 is within the variance tolerance of 0
       if (s * s < 100 * tolV) { c.skip("xv-stderr-tiny-variance"); continue; }
       double wantS = (zs - z) / s;
-      double tolS  = tolE / s + std::fabs(zs - z) * tolV / (2 * s * s * s);
+      double tolS  = tolE * (1 + std::fabs(zs) / k.zspread) / s + std::fabs(zs - z) * tolV * (1 + s * s / sill) / (2 * s * s * s);
       c.close("xv-stderr", key + ":stderr", ox.sd[0][i], wantS, tolS, w);
     }
   }
@@ -533,9 +642,9 @@ static void pairXvalid(Rng& r, Ctx& c)
           c.truth("xvm-defined", km + ":undefined-mismatch", undef(eu) && undef(em), w + fmt(" est %g / %g", eu, em));
           continue;
         }
-        c.close("xvm-estim", km + ":estim", eu, em, tolE, w);
+        closeRel(c, "xvm-estim", km + ":estim", eu, em, tolE, k.zspread, w);
         if (stdOpt < 0)
-          c.close("xvm-var", km + ":stdev", su * su, sm * sm, tolV, w);
+          closeRel(c, "xvm-var", km + ":stdev", su * su, sm * sm, tolV, sill, w);
         else if (!undef(su) && !undef(sm))
         {
           // (Z*-Z)/S on both sides: compare after multiplying out is not possible without S; use the propagated bound
@@ -544,7 +653,7 @@ static void pairXvalid(Rng& r, Ctx& c)
           {
             double s = std::fabs(em / sm); // S of the moving side
             if (s * s < 100 * tolV) { c.skip("xv-stderr-tiny-variance"); continue; }
-            c.close("xvm-stderr", km + ":stderr", su, sm, tolE / s + std::fabs(em) * tolV / (2 * s * s * s), w);
+            c.close("xvm-stderr", km + ":stderr", su, sm, tolE * (1 + (std::fabs(em) + k.zspread) / k.zspread) / s + std::fabs(em) * tolV * (1 + s * s / sill) / (2 * s * s * s), w);
           }
         }
       }
@@ -659,10 +768,10 @@ static void pairColCok(Rng& r, Ctx& c)
     {
       std::string w = what + fmt(" target=%d var=%d collocated=%d", t, v, (int)!undef(cval[v][t]));
       if (undef(oC.est[v][t])) { c.truth("cc-defined", key + ":undefined", false, w); continue; }
-      c.close("cc-estim", key + ":estim", oC.est[v][t], oR.est[v][0], tolE, w);
-      c.close("cc-var", key + ":stdev", oC.sd[v][t] * oC.sd[v][t], oR.sd[v][0] * oR.sd[v][0], tolV, w);
+      closeRel(c, "cc-estim", key + ":estim", oC.est[v][t], oR.est[v][0], tolE, k.zspread, w);
+      closeRel(c, "cc-var", key + ":stdev", oC.sd[v][t] * oC.sd[v][t], oR.sd[v][0] * oR.sd[v][0], tolV, k.ms.maxSill(), w);
       if (oC.vz.size() == (size_t)k.nvar && oR.vz.size() == (size_t)k.nvar)
-        c.close("cc-varz", key + ":varz", oC.vz[v][t], oR.vz[v][0], tolV, w);
+        closeRel(c, "cc-varz", key + ":varz", oC.vz[v][t], oR.vz[v][0], tolV, k.ms.maxSill(), w);
     }
   }
   if (k.hetero) c.probe("cc-hetero");
@@ -670,19 +779,21 @@ static void pairColCok(Rng& r, Ctx& c)
 
 // kriging() with rank_colcok: KrigingSystem::_lhsCalcul hands the conventional rank -1 of the collocated datum to
 // ACov::load(), which indexes _p1As[-1] (UBSan pointer-overflow / out-of-bounds read): every collocated kriging dies.
-// The pair is therefore visited in 1 case out of 10 only; set to true to drop it altogether.
+// The pair is therefore visited in 1 case out of 25 only; set to true to drop it altogether.
 static const bool AVOID_COLCOK_KRIGING = false || getenv("C04_DEV_AVOID") != nullptr; // env: developer runs only
 
 static void run_case(Rng& r, Ctx& c)
 {
-  int pair = (int)(r.next() % 3);
-  if (!AVOID_COLCOK_KRIGING && r.coin(0.1)) pair = 3;
+  int pair = (int)(r.next() % 4);
+  if (pair == 3) pair = 4;
+  if (!AVOID_COLCOK_KRIGING && r.coin(0.04)) pair = 3;
   switch (pair)
   {
     case 0: pairUniqueMoving(r, c); break;
     case 1: pairXvalid(r, c); break;
     case 2: pairBlock1(r, c); break;
     case 3: pairColCok(r, c); break;
+    case 4: pairReuse(r, c); break;
   }
 }
 
